@@ -24,7 +24,7 @@ func init() {
 			"(e) each refresh function passes its cancel loop over [FirstSlotOfEpoch(epoch), FirstSlotOfEpoch(epoch+1)) before it re-schedules, and the attester refresh re-creates the current slot's job only if that job was actually cancelled; " +
 			"(f) checkEventForReorg stores epoch and both dependent roots on every path and starts the change handlers under comparisons of stored with received roots; (g) the epoch ticker tests and records latestEpochRan in one critical section before it schedules anything; " +
 			"(h) every scheduling call made at start-up passes notCurrentSlot = true or !waitedForGenesis; (i) the fork epochs used are the fetched ones (shared with C15.g); (j) MergeDuties appends the three per-slot arrays together (index spaces). " +
-			"Added with the third seeding round: (l) the scheduler's job-name test and insert are one critical section inside the scheduling function itself (the controller's one-job-per-slot relies on it); (m) the chain time service truncates elapsed time, it never rounds. Added with the fourth seeding round: (n) a clock reading compared with slots is not older than a beacon-node request between reading and comparison; (o) contexts handed to goroutines or the scheduler are not cancelled by the function (or its callers) that hands them over; (p) the controller cancels jobs by full name only. Added with the fifth seeding round: (j, extended) what NewDuty receives from MergeDuties is each collection's entry for the duty's slot, never a collection filled across slots; (q) whether the slot under way is scheduled again is never decided from the wall clock. NOT decided: agreement of StartOfSlot/CurrentSlot/SlotToEpoch for all chain parameters (numeric), exactly-one job per slot across concurrent refreshes (interleavings, C02), completeness of the beacon node's duties.",
+			"Added with the third seeding round: (l) the scheduler's job-name test and insert are one critical section inside the scheduling function itself (the controller's one-job-per-slot relies on it); (m) the chain time service truncates elapsed time, it never rounds. Added with the fourth seeding round: (n) a clock reading compared with slots is not older than a beacon-node request between reading and comparison; (o) contexts handed to goroutines or the scheduler are not cancelled by the function (or its callers) that hands them over; (p) the controller cancels jobs by full name only. Added with the fifth seeding round: (j, extended) what NewDuty receives from MergeDuties is each collection's entry for the duty's slot, never a collection filled across slots; (q) whether the slot under way is scheduled again is never decided from the wall clock. Added with the sixth seeding round and the false-alarm regression: (r) a job that prepares an epoch is named after that epoch; (s) the state of the once-per-epoch guard is created outside the tick function; (t) a table of which callers of the sync committee scheduling leave out the slot under way (Altair fork epoch: included; start-up: left out). NOT decided: agreement of StartOfSlot/CurrentSlot/SlotToEpoch for all chain parameters (numeric), exactly-one job per slot across concurrent refreshes (interleavings, C02), completeness of the beacon node's duties.",
 		Technique:   "guard/edge-deletion queries with relation sets, provenance of ScheduleJob arguments and of closure captures, string-table extraction and agreement (writer vs readers of job names), dominance of cancel loops, lock-set dataflow, index-space analysis",
 		Rule:        "one obligation per duty-job site and filter (a), per ScheduleJob call (b,c), per name format use (d), per refresh function (e), per tracking field/handler (f), per epoch-ticker step (g), per start-up scheduling call (h), per fork-detail function (i)",
 		Assumptions: []string{"job names are built with fmt.Sprintf from constant formats (true on this tree; a non-constant name makes the check fail as undecided)"},
@@ -881,6 +881,70 @@ func runC03(p *core.Prog, r *core.Report, tier string) {
 			}
 		}
 		r.Floor("C03.q scheduling calls with a current-slot exclusion", nNC, 8)
+	}
+
+	// ---- (r) a job that prepares an epoch is named after the epoch it prepares: the refresh paths ask the scheduler
+	// whether "Prepare for epoch N" exists to decide whether epoch N is still to be set up ----
+	{
+		nPrep := 0
+		for _, st := range sites {
+			args := st.call.Common().Args
+			fm, nameArgs, ok := nameFormat(ds, args[2])
+			if !ok || !strings.Contains(strings.ToLower(fm), "epoch %d") || nameArgs == nil {
+				continue
+			}
+			jf := jobFuncOf(args[4])
+			if jf == nil {
+				continue
+			}
+			for _, sl := range core.StructLits(jf, "prepareForEpochData") {
+				ev := sl.Fields["epoch"]
+				if ev == nil {
+					continue
+				}
+				nPrep++
+				ed := ds.D(ev).String()
+				r.Check(strings.Contains(nameArgs.String(), ed), "C03.r", core.FnKey(st.fn)+"|prepare-job-named-after-its-epoch", p.Pos(st.call.Pos()), "the job is named after the epoch it prepares: "+ed,
+					"the job named "+fmt.Sprintf("%q", fm)+" with "+nameArgs.String()+" prepares epoch "+ed+": a refresh that looks the job up by the epoch it is about to set up finds the wrong one (it skips the current epoch's refresh, or repeats the next one's)")
+			}
+		}
+		r.Floor("C03.r epoch preparation jobs", nPrep, 1)
+	}
+
+	// ---- (s) the state of the once-per-epoch guard lives as long as the ticker: it is created by a named function, not
+	// inside the function the scheduler runs at every tick (a fresh state each time never says "already ran") ----
+	{
+		nState := 0
+		for _, f := range fns {
+			for _, sl := range core.StructLits(f, "epochTickerData") {
+				nState++
+				r.Check(f.Parent() == nil, "C03.s", core.FnKey(f)+"|ticker-state-created-once", p.Pos(sl.Alloc.Pos()), "the ticker's state is created once, outside the tick function", "the ticker's state (latest epoch run) is created inside a function literal that runs at every tick: the once-per-epoch guard starts from 'never ran' each time, so a second tick in the same epoch schedules the epoch's duties again")
+			}
+		}
+		r.Floor("C03.s ticker state objects", nState, 1)
+	}
+
+	// ---- (t) which callers leave out the slot under way: a table. At start-up and in the refreshes the current slot's
+	// jobs exist or have run (true); at the epoch tick and at the Altair fork epoch the current slot is the first slot of
+	// what is being scheduled and has no job yet (false) ----
+	{
+		want := map[string]string{"handleAltairForkEpoch": "false", "New": "true"}
+		for _, f := range fns {
+			outer := outermost(f)
+			w, ok := want[outer.Name()]
+			if !ok {
+				continue
+			}
+			for _, ci := range core.Calls(f, func(c *ssa.CallCommon) bool {
+				callee := c.StaticCallee()
+				return callee != nil && callee.Name() == "scheduleSyncCommitteeMessages"
+			}) {
+				args := ci.Common().Args
+				d := ds.D(args[len(args)-1])
+				r.Check(d.Kind == "const" && d.Name == w, "C03.t", outer.Name()+"|sync-committee|not-current-slot", p.Pos(ci.Pos()), "the slot under way is "+map[string]string{"true": "left out", "false": "included"}[w],
+					"the sync committee scheduling from "+outer.Name()+" passes notCurrentSlot="+d.String()+", expected "+w+": "+map[string]string{"false": "the first slot of the fork epoch gets no message job, so no member messages in it", "true": "the slot under way is set up a second time"}[w])
+			}
+		}
 	}
 
 	// ---- (p) duties obtained keep their jobs: the controller withdraws jobs by full name only (shared with C15.l) ----
